@@ -3,18 +3,40 @@ from props import *  # noqa: F401,F403
 # ------------------------------------------------------------------------------------------------
 rc_bin("c14_rc", ["harness/c14_tracestate.cc"], lib=False)
 fuzz_bin("c14_fuzz", ["harness/c14_tracestate.cc"], lib=False)
+# c14_noregex.cc forces OPENTELEMETRY_HAVE_WORKING_REGEX to 0 and then includes c14_tracestate.cc: the
+# UNMODIFIED trace_state.h with its hand-written IsValidKeyNonRegEx / IsValidValueNonRegEx (dead code in
+# the pinned configuration, anchored by the property) behind the same generators and oracles.  TraceState
+# is header-only, so the variant gets binaries of its own (one definition of every inline function per
+# program); its targets are called ts_ops_noregex / ts_header_noregex / ts_bytes_noregex.
+rc_bin("c14nr_rc", ["harness/c14_noregex.cc"], lib=False)
+fuzz_bin("c14nr_fuzz", ["harness/c14_noregex.cc"], lib=False)
 PROPS["C14"] = dict(
     level_text="Model-based and differential property tests over generated operation histories and header strings "
                "(rapidcheck + libFuzzer, ASan/UBSan): every explored case agreed with an ordered-list model and a "
-               "two-sided reference parser. Exploration is the right level: the domain (all histories, all byte strings) "
+               "two-sided reference parser, for the regex validators of the pinned configuration and for the "
+               "hand-written non-regex validators (compiled from the unmodified header in binaries of their own). "
+               "Exploration is the right level: the domain (all histories, all byte strings) "
                "is unbounded and the oracle is cheap, so breadth of generated cases is what finds grammar/ordering defects.",
-    technique="stateful model-based PBT (list model) + differential reference parser + round trip; rapidcheck and libFuzzer",
+    technique="stateful model-based PBT (list model) + differential reference parser + round trip; rapidcheck and libFuzzer; "
+              "both validator variants",
     rule="Cases are choice streams decoded into TraceState operation histories / header strings.",
     assumptions=[
-        "W3C trace-context level 1 grammar is the reference; digit-initial simple keys/system ids, "
-        "whether empty members count towards 32, and repeated keys in a parsed header are treated as "
-        "either-accept-or-reject regions",
+        "W3C trace-context level 1 grammar is the reference; digit-initial simple keys/system ids and "
+        "whether empty members count towards 32 are treated as either-accept-or-reject regions",
+        "repeated keys in a parsed header: the parser may refuse the header (empty state) or keep every member, the "
+        "first or the last member of each key, or update the first member in place; it may not lose a key, reorder "
+        "or truncate. 33+ members that fold to 32 or fewer keys may also be refused",
+        "a receiver that holds a repeated key (only obtainable by parsing) is operated on with the literal reading of "
+        "the statement - Set: given key first and once, Delete: no member with the given key left, Get: one of the "
+        "values of the key - while the members of ANOTHER repeated key may be kept, folded as above or (Set only, "
+        "documented 'result violates the specification') answered with the empty state",
         "Delete(invalid key) may return the unchanged list or the empty state",
+        "Get's out-parameter after a miss is not asserted (the statement only speaks of the value of a present key)",
+        "the non-regex validator variants are compiled from the unmodified header with the macro forced to 0 in a "
+        "separate program; a platform-specific std::regex defect is out of scope",
+        "non-regex variant: the findings C14-noregex-key and C14-noregex-value are fixed in /repo (cd0d86a, de5422e); their "
+        "shapes are generated for both variants (were one listed as open again, the non-regex generators would re-shape "
+        "exactly these keys/values and count them under excluded_for_known_findings)",
         SC_NOTE,
     ],
     runs=[
@@ -25,5 +47,13 @@ PROPS["C14"] = dict(
             dict(procs=8, cases=3000000, max_len=1200), replay_bin="c14_rc"),
         run("header-fuzz", "c14_fuzz", "ts_header", "fuzz", dict(procs=2, cases=60000, max_len=600),
             dict(procs=4, cases=1000000, max_len=1200), replay_bin="c14_rc"),
+        # the same targets on the non-regex validators (much cheaper per case: no std::regex)
+        run("ops-noregex", "c14nr_rc", "ts_ops_noregex", "rc", dict(procs=1, cases=24000), dict(procs=4, cases=240000)),
+        run("header-noregex", "c14nr_rc", "ts_header_noregex", "rc", dict(procs=1, cases=18000),
+            dict(procs=2, cases=240000)),
+        run("bytes-noregex", "c14nr_rc", "ts_bytes_noregex", "rc", dict(procs=1, cases=4000),
+            dict(procs=1, cases=160000)),
+        run("bytes-fuzz-noregex", "c14nr_fuzz", "ts_bytes_noregex", "fuzz", dict(procs=1, cases=200000, max_len=400),
+            dict(procs=2, cases=2000000, max_len=1200), replay_bin="c14nr_rc"),
     ],
 )
